@@ -35,3 +35,30 @@ meta("C05",
      "shared with C02/C01/C06.",
      ["when the new deadline fires in wall-clock terms (C04's undecided part)"],
      ["Duration::from_secs / Instant + Duration are monotone"])
+
+meta("C16",
+     "Cancel-atomicity: for every client-cancellable root (25 RPC handler coroutines + the 2 StreamingPull stream bodies, per control "
+     "message) an interprocedural walk over all paths, inlining awaited local coroutines, looks for `effect -> Yield at which the root "
+     "can be dropped -> effect`.  Effects are synchronous mutations of shared state, completions of mailbox sends of mutating request "
+     "variants (mutating-ness computed from the actor handler's effect cone) and task spawns; handing out messages (PullMessages) is "
+     "exempt by the property's own text.  Actor loops are detached tasks and ignore failed replies.",
+     ["for which poll count k the window is hit (irrelevant: the rule forbids the window)"],
+     ["tonic drops the handler future / response stream when the client goes away; a spawned task runs to completion"])
+
+meta("C17",
+     "Validate-before-mutate on all paths of every RPC handler and stream body (no state effect precedes a call whose synchronous cone "
+     "can build Status::invalid_argument); the raw-field parse cone contains no panicking library call, indexing or division; every "
+     "narrowing integer cast of a request field is proven in range by interval analysis or is a listed exception; the StreamingPull "
+     "structural checks and the push-endpoint check dominate the first effect.",
+     ["that every possible string value is handled (parsers are loop-free compositions of total library functions: R17.2 is the static content)",
+      "hangs (C07/C12)"],
+     ["library functions listed in libmodel.MAY_PANIC are the ones that can panic"])
+
+meta("C12",
+     "Deletion-safety of every consumer wait: the delete flow raises the deletion one-shot and notify_waiters on every successful path; each "
+     "consumer loop (a loop that pulls and waits on the message signal) either races its wait against the deletion signal with the deleted "
+     "branch leading to an error status (decided by constant propagation into the loop condition), or re-pulls into an error; the pull half "
+     "of the merged StreamingPull stream cannot return without an Err item; every Subscription handle method turns a closed mailbox / dropped "
+     "reply into an error; the actor task ends on the deletion signal.",
+     ["which select branch tokio's RNG picks at run time (irrelevant once every branch is safe)"],
+     ["StreamExt::merge completes only when both halves complete; tonic ends a response stream at the first Err item"])
